@@ -82,6 +82,9 @@ func (fv *FV) coerce(a, b Term) (Term, Term) {
 		if isNilLit(l) && other.Sort == sSlice {
 			return Term{S: "(mk-slice 0 0 0 0)", Sort: sSlice, T: other.T}, true
 		}
+		if isNilLit(l) && other.Sort == "ElemPtr" {
+			return Term{S: "(mk-eptr 0 0)", Sort: "ElemPtr", T: other.T}, true
+		}
 		return l, false
 	}
 	if x, ok := fix(a, b); ok {
@@ -399,8 +402,16 @@ func (fv *FV) arith(op string, l, r Term, goSemantics bool, st *State, pos token
 			return Term{S: app(op, l.S, r.S), Sort: sInt, T: rt}
 		case "/":
 			// Go truncated division
+			if !r.Lit && st != nil {
+				q, _ := fv.divMod(st, l.S, r.S)
+				return Term{S: q, Sort: sInt, T: rt}
+			}
 			return Term{S: fv.truncDiv(l.S, r.S), Sort: sInt, T: rt}
 		case "%":
+			if !r.Lit && st != nil {
+				_, m := fv.divMod(st, l.S, r.S)
+				return Term{S: m, Sort: sInt, T: rt}
+			}
 			return Term{S: fv.truncMod(l.S, r.S), Sort: sInt, T: rt}
 		case "<", "<=", ">", ">=":
 			return Term{S: app(op, l.S, r.S), Sort: sBool}
@@ -465,6 +476,31 @@ func lowMask(s string) (int64, bool) {
 		return v, true
 	}
 	return 0, false
+}
+
+// divMod abstracts x / y and x % y with a symbolic divisor: fresh q, r characterised exactly (truncated division)
+// by one product fact, plus the linear consequences the solvers need most often. This keeps `div`/`mod` by a
+// symbolic value (which drags z3's nonlinear machinery into every query of the function) out of the VCs.
+func (fv *FV) divMod(st *State, x, y string) (string, string) {
+	key := x + "\x00" + y
+	if c, ok := fv.divCache[key]; ok {
+		return c[0], c[1]
+	}
+	q := fv.fresh("quo", sInt)
+	r := fv.fresh("rem", sInt)
+	fv.define(st, implies(not(eq(y, "0")), and(
+		eq(x, app("+", app("*", y, q), r)),
+		app("<", ite(app(">=", r, "0"), r, app("-", r)), ite(app(">=", y, "0"), y, app("-", y))),
+		implies(app(">=", x, "0"), app(">=", r, "0")),
+		implies(app("<=", x, "0"), app("<=", r, "0")))))
+	fv.define(st, implies(and(app(">=", x, "0"), app(">", y, "0")), and(app(">=", q, "0"), app("<=", q, x),
+		implies(app("<", x, y), and(eq(q, "0"), eq(r, x))),
+		implies(and(app("<=", y, x), app("<", x, app("*", "2", y))), and(eq(q, "1"), eq(r, app("-", x, y)))))))
+	if fv.divCache == nil {
+		fv.divCache = map[string][2]string{}
+	}
+	fv.divCache[key] = [2]string{q, r}
+	return q, r
 }
 
 func (fv *FV) truncDiv(a, b string) string {
@@ -680,33 +716,17 @@ func (fv *FV) sliceTerm(a, lo, hi, max Term) Term {
 }
 
 func (fv *FV) specQuant(env *Env, q *SQuant) Term {
-	e2 := env
-	var binders []string
-	for _, v := range q.Vars {
-		t := fv.resolveType(env, v.Type)
-		s := fv.sortOf(t)
-		fv.nfresh++
-		name := fmt.Sprintf("%s?%d", v.Name, fv.nfresh)
-		binders = append(binders, fmt.Sprintf("(%s %s)", name, s))
-		e2 = e2.with(v.Name, Term{S: name, Sort: s, T: t})
-	}
+	e2, binders := fv.bindQuant(env, q)
 	body := fv.specBool(e2, q.Body)
-	var pats []string
-	for _, tr := range q.Trig {
-		var ts []string
-		for _, t := range tr {
-			ts = append(ts, fv.spec(e2, t).S)
-		}
-		pats = append(pats, ":pattern ("+strings.Join(ts, " ")+")")
-	}
+	pats := fv.quantPatterns(e2, q)
 	k := "exists"
 	if q.Forall {
 		k = "forall"
 	}
-	if len(pats) > 0 {
-		body = "(! " + body + " " + strings.Join(pats, " ") + ")"
+	if pats != "" {
+		body = "(! " + body + " " + pats + ")"
 	}
-	return Term{S: fmt.Sprintf("(%s (%s) %s)", k, strings.Join(binders, " "), body), Sort: sBool}
+	return Term{S: fmt.Sprintf("(%s (%s) %s)", k, binders, body), Sort: sBool}
 }
 
 func (fv *FV) lenTerm(st *State, v Term) Term {
@@ -803,6 +823,41 @@ func (fv *FV) specCall(env *Env, c *SCall) Term {
 			cs = append(cs, fv.unchanged(env, a))
 		}
 		return Term{S: and(cs...), Sort: sBool}
+	case "unchanged_outside":
+		// every element of the backing array of s outside the window [off, off+len) is as in the old state
+		need(1)
+		if env.old == nil {
+			fv.sfail("unchanged_outside() needs an old state")
+		}
+		on := *env
+		on.st = env.old
+		if env.oldNames != nil {
+			on.names = env.oldNames
+		}
+		s := fv.spec(&on, c.Args[0])
+		et := elemType(s.T)
+		key, _ := fv.elemComp(et)
+		fv.nfresh++
+		x := fmt.Sprintf("x?%d", fv.nfresh)
+		now := sel(sel(fv.heapGet(env.st, key), "(sbase "+s.S+")"), x)
+		was := sel(sel(fv.heapGet(env.old, key), "(sbase "+s.S+")"), x)
+		return Term{S: fmt.Sprintf("(forall ((%s Int)) (! (=> (or (< %s (soff %s)) (>= %s (+ (soff %s) (slen %s)))) (= %s %s)) :pattern (%s)))", x, x, s.S, x, s.S, s.S, now, was, now), Sort: sBool}
+	case "old_arrays_unchanged":
+		// every backing array (of the element type of the argument) that was allocated in the old state is unchanged
+		need(1)
+		if env.old == nil {
+			fv.sfail("old_arrays_unchanged() needs an old state")
+		}
+		s := fv.spec(env, c.Args[0])
+		et := elemType(s.T)
+		if et == nil {
+			fv.sfail("old_arrays_unchanged() of a non-slice")
+		}
+		key, _ := fv.elemComp(et)
+		fv.nfresh++
+		b := fmt.Sprintf("b?%d", fv.nfresh)
+		now := sel(fv.heapGet(env.st, key), b)
+		return Term{S: fmt.Sprintf("(forall ((%s Int)) (! (=> (select %s %s) (= %s %s)) :pattern (%s)))", b, fv.allocTerm(env.old), b, now, sel(fv.heapGet(env.old, key), b), now), Sort: sBool}
 	case "ord":
 		need(3)
 		a := args()
@@ -874,6 +929,10 @@ func (fv *FV) specCall(env *Env, c *SCall) Term {
 			return Term{S: app("bv2nat", a[0].S), Sort: sInt, T: types.Typ[types.Int]}
 		}
 		return a[0]
+	case "elemptr":
+		need(2)
+		a := args()
+		return fv.elemPtr(a[0], a[1])
 	case "load64":
 		need(2)
 		a := args()
@@ -896,7 +955,11 @@ func (fv *FV) specCall(env *Env, c *SCall) Term {
 	if env.depth > 40 {
 		fv.sfail("spec function expansion too deep (recursive?): %s", c.Fn)
 	}
-	// macro expansion: parameters bound to argument terms; heap = current env state
+	return fv.spec(fv.expandEnv(env, sf, a), sf.Body)
+}
+
+// expandEnv: macro expansion environment — parameters bound to argument terms; heap = current env state.
+func (fv *FV) expandEnv(env *Env, sf *SpecFunc, a []Term) *Env {
 	n := &Env{fv: fv, st: env.st, old: env.old, names: map[string]Term{}, pc: sf.Pkg, depth: env.depth + 1, results: nil, scopePkg: nil}
 	for i, p := range sf.Params {
 		at := a[i]
@@ -908,7 +971,75 @@ func (fv *FV) specCall(env *Env, c *SCall) Term {
 	if env.oldNames != nil {
 		n.oldNames = n.names
 	}
-	return fv.spec(n, sf.Body)
+	return n
+}
+
+// splitConj translates a boolean contract expression into a list of conjuncts (so that each becomes its own
+// obligation): top-level &&, predicate calls, the right side of ==>, and bodies of forall are split.
+func (fv *FV) splitConj(env *Env, e SExpr) []string {
+	switch x := e.(type) {
+	case *SBin:
+		switch x.Op {
+		case "&&":
+			return append(fv.splitConj(env, x.L), fv.splitConj(env, x.R)...)
+		case "==>":
+			a := fv.specBool(env, x.L)
+			var out []string
+			for _, p := range fv.splitConj(env, x.R) {
+				out = append(out, implies(a, p))
+			}
+			return out
+		}
+	case *SCall:
+		if sf := fv.lookupSpecFunc(env, x.Fn); sf != nil && sf.Body != nil && sf.IsPred && len(sf.Params) == len(x.Args) && env.depth < 40 {
+			var a []Term
+			for _, arg := range x.Args {
+				a = append(a, fv.spec(env, arg))
+			}
+			return fv.splitConj(fv.expandEnv(env, sf, a), sf.Body)
+		}
+	case *SQuant:
+		if x.Forall {
+			e2, binders := fv.bindQuant(env, x)
+			pats := fv.quantPatterns(e2, x)
+			var out []string
+			for _, p := range fv.splitConj(e2, x.Body) {
+				body := p
+				if pats != "" {
+					body = "(! " + p + " " + pats + ")"
+				}
+				out = append(out, fmt.Sprintf("(forall (%s) %s)", binders, body))
+			}
+			return out
+		}
+	}
+	return []string{fv.specBool(env, e)}
+}
+
+func (fv *FV) bindQuant(env *Env, q *SQuant) (*Env, string) {
+	e2 := env
+	var binders []string
+	for _, v := range q.Vars {
+		t := fv.resolveType(env, v.Type)
+		s := fv.sortOf(t)
+		fv.nfresh++
+		name := fmt.Sprintf("%s?%d", v.Name, fv.nfresh)
+		binders = append(binders, fmt.Sprintf("(%s %s)", name, s))
+		e2 = e2.with(v.Name, Term{S: name, Sort: s, T: t})
+	}
+	return e2, strings.Join(binders, " ")
+}
+
+func (fv *FV) quantPatterns(e2 *Env, q *SQuant) string {
+	var pats []string
+	for _, tr := range q.Trig {
+		var ts []string
+		for _, t := range tr {
+			ts = append(ts, fv.spec(e2, t).S)
+		}
+		pats = append(pats, ":pattern ("+strings.Join(ts, " ")+")")
+	}
+	return strings.Join(pats, " ")
 }
 
 // uninterp applies an uninterpreted spec function.
